@@ -10,16 +10,21 @@ from props import c18_real as R
 
 ID = "C18"
 LEAN_MODEL_TARGETS = ["drv_c18"]
-LEAN_PROOF_TARGETS = ["PyroProps.C18"]
+LEAN_PROOF_TARGETS = ["PyroProps.C18", "PyroProps.C18Src"]
 AUDIT_FILES = ["PyroModel/Lock.lean", "PyroModel/Pool.lean", "PyroModel/Gen/C18.lean", "PyroProofs/Lock.lean",
                "PyroProofs/Pool.lean", "PyroProofs/PoolProbe.lean", "PyroModel/PoolConn.lean", "PyroProofs/PoolConn.lean",
-               "PyroProps/C18.lean"]
+               "PyroProps/C18.lean", "PyroModel/PoolSrc.lean", "PyroModel/LockSkeleton.lean", "PyroModel/Gen/C18Src.lean",
+               "PyroProps/C18Src.lean"]
 THEOREMS = ["Pyro.C18.C18_gen_shape_ok", "Pyro.C18.C18_gen_source", "Pyro.C18.C18_gen_behaviour", "Pyro.C18.C18_methods_atomic",
             "Pyro.C18.C18_bounded", "Pyro.C18.C18_once_or_refused", "Pyro.C18.C18_refused_iff_full",
             "Pyro.C18.C18_no_lost_wakeup", "Pyro.C18.C18_pending_runs", "Pyro.C18.C18_close",
             "Pyro.C18.C18_close_exits", "Pyro.C18.C18_race_overlimit", "Pyro.C18.C18_race_close",
             "Pyro.C18.C18_gen_conn", "Pyro.C18.C18_conn_closed", "Pyro.C18.C18_refusal_bounded",
-            "Pyro.Lock.atomic", "Pyro.Lock.book"]
+            "Pyro.Lock.atomic", "Pyro.Lock.book",
+            "Pyro.C18.C18_process_translated", "Pyro.C18.C18_notify_translated", "Pyro.C18.C18_close_translated",
+            "Pyro.C18.C18_source_run", "Pyro.C18.C18_source_bounded", "Pyro.C18.C18_source_refused_iff_full",
+            "Pyro.C18.C18_source_once_or_refused", "Pyro.C18.C18_source_close", "Pyro.C18.C18_source_locked",
+            "Pyro.LockSkeleton.allLocked_sound"]
 SUITES = ["sequential", "schedules", "connection"]
 RULE = ("(a) sequential: generated op lists (submit / let job k end normally or by raising / close) for pool sizes 1<=min<=max<=3 run on the REAL Pool "
         "with real Worker threads under the deterministic scheduler; after every op the workers are run to rest under a seeded "
@@ -345,12 +350,22 @@ def extract():
     from props import c18_conn
     cn = c18_conn.probe_tables()
 
+    from props import c18_tr
+    import Pyro5.svr_threads as svr_mod
+    src_err = None
+    try:
+        src_text = c18_tr.generate(svr_mod, tree)
+    except c18_tr.Untranslatable as e:
+        src_err = e
+    else:
+        common.write_if_changed(os.path.join(common.LEAN, "PyroModel", "Gen", "C18Src.lean"), src_text)
+
     def lst(name, items):
         return "def %s : List String := [\n  %s]\n" % (name, ",\n  ".join(_lean_str(x) for x in items))
 
     def tab(name, doc, rows_):
         return "/-- %s -/\ndef %s : List (List (List Nat)) := %s\n" % (doc, name, c18_probe.lean_rows(rows_))
-    return ("-- GENERATED by harness/props/c18.py + c18_probe.py from Pyro5/svr_threads.py — do not edit\n"
+    main = ("-- GENERATED by harness/props/c18.py + c18_probe.py from Pyro5/svr_threads.py — do not edit\n"
             "namespace Pyro.Gen.C18\n"
             "/-- (Pool method, accesses of self.idle / self.busy / self.closed lexically inside `with self.count_lock:`,\n"
             "    accesses outside); helper methods of Pool called from these methods are expanded at the call site -/\n"
@@ -386,6 +401,11 @@ def extract():
             + tab("connDenyTable", "denyConnection: [[refusing handshake raises, COMMTIMEOUT set, exception came out], [], effects]", cn["deny"])
             + tab("acceptTable", "events(): [[COMMTIMEOUT set, pool full, refusing handshake raises, exception came out, socket had its timeout when the refusing handshake read], [], effects]", cn["accept"])
             + "end Pyro.Gen.C18\n")
+    if src_err is not None:
+        # the facts are still regenerated; the transcription (Gen/C18Src.lean) is stale: a broken tie
+        common.write_if_changed(os.path.join(common.LEAN, "PyroModel", "Gen", "C18.lean"), main)
+        raise ValueError("Pool.process / notify_done / close left the translatable fragment (harness/props/c18_tr.py): %s" % src_err)
+    return main
 
 
 # ------------------------------------------------------------------------------------------------------
